@@ -761,7 +761,9 @@ class Task(GraphNode):
             else:
                 return a
 
-        new_argspec = tuple(map(_eval, self.args))
+        # A list comprehension, not map() or a generator: a nested task raising
+        # StopIteration must propagate instead of silently ending the iteration
+        new_argspec = [_eval(a) for a in self.args]
         if self.kwargs:
             kwargs = {k: _eval(kw) for k, kw in self.kwargs.items()}
             return self.func(*new_argspec, **kwargs)
